@@ -1500,6 +1500,15 @@ func sigAtom(a string) string {
 }
 
 func runExpand(res *mon.Result, scratch string, nStrings int) (done int) {
+	const per = 4000
+	nb := (nStrings + per - 1) / per
+	mine := false
+	for b := 0; b < nb; b++ {
+		mine = mine || mon.Mine(b)
+	}
+	if !mine {
+		return 0
+	}
 	e, err := buildRelay(res, scratch)
 	if err != nil {
 		fmt.Fprintln(os.Stderr, "C20:", err)
@@ -1507,8 +1516,6 @@ func runExpand(res *mon.Result, scratch string, nStrings int) (done int) {
 		return 0
 	}
 	defer os.Remove(e.bin)
-	const per = 4000
-	nb := (nStrings + per - 1) / per
 	for b := 0; b < nb; b++ {
 		if !mon.Mine(b) {
 			continue
@@ -1605,50 +1612,29 @@ func main() {
 		}
 	}
 
-	// part 1. The cases are independent (one table each), so several are built at a time: the
-	// command tokenizer of the code under test needs 0.1-0.5 s of CPU per long command under -race.
+	// part 1. One configuration at a time: imperatives.Apply / ParseDestinations re-initialise a
+	// package-level token table on every call and are therefore not safe to call concurrently
+	// (the race detector says so at once). Parallelism comes from the driver's shards.
 	n := mon.N(200, 5000)
 	ngn := mon.N(24, 64)
 	if v, err := strconv.Atoi(os.Getenv("C20_N")); err == nil && v > 0 { // development aid only
 		n = v
 	}
-	nw := 8
-	if v, err := strconv.Atoi(os.Getenv("C20_WORKERS")); err == nil && v > 0 {
-		nw = v
-	}
 	t0 := time.Now()
-	var ranMu sync.Mutex
 	ran := 0
-	stop := false
-	idxs := make(chan int)
-	var pw sync.WaitGroup
-	for k := 0; k < nw; k++ {
-		pw.Add(1)
-		go func() {
-			defer pw.Done()
-			w := &worker{}
-			for i := range idxs {
-				w.runCase(res, genCase(mon.Seed(), i), scratch, watch)
-				ranMu.Lock()
-				ran++
-				ranMu.Unlock()
-			}
-			w.drainPending(true)
-		}()
-	}
-	for i := 0; i < n && !stop; i++ {
+	w0 := &worker{}
+	for i := 0; i < n; i++ {
 		if !mon.Mine(i) {
 			continue
 		}
 		if g := runtime.NumGoroutine(); g > 7000 {
 			res.Inconclusive(fmt.Sprintf("stopped at case %d: %d goroutines alive (leaked by the entries built so far), too close to the race detector's limit", i, g))
-			stop = true
 			break
 		}
-		idxs <- i
+		w0.runCase(res, genCase(mon.Seed(), i), scratch, watch)
+		ran++
 	}
-	close(idxs)
-	pw.Wait()
+	w0.drainPending(true)
 	fmt.Printf("part 1: %d configurations in %.1fs\n", ran, time.Since(t0).Seconds())
 	t0 = time.Now()
 	// grafanaNet configurations, one at a time, last (their routes stay alive); the ones that leave
